@@ -81,6 +81,25 @@ class Cmp:
             return self.threeway(self.env[e['d']], sigma)
         if e.get('k') == 'call' and (e.get('callee') or '').split('::')[-1] == 'compare' and e.get('obj') is not None and len(e['args']) == 1:
             return self.rel(e['obj'], e['args'][0], sigma)
+        if e.get('k') == 'call' and e.get('obj') is None and (e.get('callee') or '').split('::')[-1] in ('strcmp', 'strcoll', 'strcasecmp', 'strncasecmp', 'stricmp', 'strncmp') and len(e.get('args', [])) >= 2:
+            # the C three-way comparisons of the c_str() of one field of both operands
+            def unc(a):
+                a = strip_copies(strip_casts(a))
+                if a is not None and a.get('k') == 'call' and (a.get('callee') or '').split('::')[-1] in ('c_str', 'data') and a.get('obj') is not None:
+                    return a['obj']
+                return a
+            a0, a1 = unc(e['args'][0]), unc(e['args'][1])
+            name = (e.get('callee') or '').split('::')[-1]
+            pa, pb = param_field(a0, self.params, self.env), param_field(a1, self.params, self.env)
+            if pa is not None and pb is not None and pa[1] == pb[1] and pa[0] != pb[0]:
+                if name in ('strcasecmp', 'strncasecmp', 'stricmp'):
+                    raise Lossy('field %s is ordered by %s(), which ignores the case of letters: two keys that differ only in case are equivalent '
+                                '(e.g. "Lib.theo" and "lib.theo")' % (pa[1], name))
+                if name in ('strncmp',):
+                    raise Lossy('field %s is ordered by %s(), which compares a prefix only: two keys that agree on it are equivalent' % (pa[1], name))
+                if name == 'strcmp':
+                    raise Lossy('field %s is ordered by strcmp() on c_str(): names that contain a NUL byte are compared up to it only' % pa[1])
+            return self.rel(a0, a1, sigma)
         if e.get('k') in ('bin', 'call') and e.get('op') == '<=>':
             a, b = (e['l'], e['r']) if e.get('k') == 'bin' else ((e['obj'], e['args'][0]) if e.get('obj') is not None else (e['args'][0], e['args'][1]))
             return self.rel(a, b, sigma)
